@@ -54,6 +54,8 @@ def _worker(args):
                            max_paths=cfg.get("max_paths", 50000),
                            max_cex=cfg.get("max_cex", 3),
                            wall_budget=cfg.get("wall", 300))
+        from . import load as _load
+        ex.on_path_start = _load.reset_state
         ex.run(lambda ctx: fn(ctx, cfg))
         s = ex.summary()
         s["cfg"] = cfg
